@@ -21,10 +21,9 @@ def prefixOfKey (p : Prefix) (q : Key × Obj) : Option Bytes :=
 
 /-- the outer loop without page limit or markers -/
 theorem verLoop_unpaginated (p : Prefix) (masked : Bool) (objs : List (Key × Obj)) (cnt : Int) (acc : VersionList) :
-    verLoop p masked 0 objs none cnt acc =
-      .ok { entries := acc.entries ++ objs.flatMap (entriesOfKey p masked),
-            prefixes := addAll acc.prefixes (objs.filterMap (prefixOfKey p)),
-            truncated := acc.truncated } := by
+    verLoop p masked 0 [] none objs cnt acc =
+      .ok { acc with entries := acc.entries ++ objs.flatMap (entriesOfKey p masked),
+                     prefixes := addAll acc.prefixes (objs.filterMap (prefixOfKey p)) } := by
   induction objs generalizing cnt acc with
   | nil => simp [verLoop, addAll]
   | cons q rest ih =>
@@ -58,7 +57,7 @@ theorem verLoop_unpaginated (p : Prefix) (masked : Bool) (objs : List (Key × Ob
 theorem listVersions_exact (m : Mem) (b : Bytes) (bk : Bucket) (hb : SMap.find m.buckets b = some bk) (p : Prefix) :
     m.listVersions b p [] none 0 =
       .ok ⟨bk.objects.flatMap (entriesOfKey p (bk.versioning == .none)),
-           addAll [] (bk.objects.filterMap (prefixOfKey p)), false⟩ := by
+           addAll [] (bk.objects.filterMap (prefixOfKey p)), false, [], none⟩ := by
   unfold Mem.listVersions
   simp only [hb, List.isEmpty_nil, if_true]
   rw [verLoop_unpaginated]
@@ -75,6 +74,6 @@ theorem one_latest_per_key (p : Prefix) (masked : Bool) (k : Key) (o : Obj) (d :
 /-! Non-vacuity -/
 example : (Mem.listVersions ⟨[([98], ⟨.enabled, [([107], ⟨some ⟨3, true, [], [], []⟩, [⟨1, false, [1], [9], []⟩]⟩)]⟩)], 3⟩
     [98] ⟨false, [], false, 0⟩ [] none 0) =
-    .ok ⟨[⟨[107], some 1, false, false, 1, [9]⟩, ⟨[107], some 3, true, true, 0, []⟩], [], false⟩ := by decide
+    .ok ⟨[⟨[107], some 1, false, false, 1, [9]⟩, ⟨[107], some 3, true, true, 0, []⟩], [], false, [], none⟩ := by decide
 
 end GFS.Props.C13L
